@@ -630,7 +630,8 @@ pub fn numeric_engine(e: &EngA) -> (EngA, Vec<Prog>, Vec<Prog>) {
     singles.push(prog_single(Op::Gt, &fullp(1, 2, 3, "a")));
     singles.push(prog_single(Op::Caret, &fullp(1, 2, 3, "a")));
     for k in 1..=49u32 {
-        let d = 1u64 << k;
+      for dd in [0u64, 1, 2] {
+        let d = (1u64 << k) - 1 + dd; // the component becomes base + 2^k - 1, + 2^k, + 2^k + 1
         for pos in 0..3 {
             let mut t = [1u64, 2, 3];
             t[pos] += d;
@@ -644,6 +645,7 @@ pub fn numeric_engine(e: &EngA) -> (EngA, Vec<Prog>, Vec<Prog>) {
             singles.push(prog_single(Op::Lt, &fullp(t[0], t[1], t[2], "b")));
             singles.push(vec![Alt::Set(vec![Simple::P(Op::Ge, fullp(1, 2, 3, "a")), Simple::P(Op::Le, fullp(t[0], t[1], t[2], "b"))])]);
         }
+      }
     }
     let mut bvs = vec![];
     for p in &singles {
